@@ -613,7 +613,7 @@ def rule_encoder_grammar(ctx, g, rid):
     missing = set(GRAMMAR_RE) - seen_prod
     for m in sorted(missing):
         ctx.violation(rid, "production/" + m, "no encoder implements the production starting with %s" % m, None)
-    ctx.floor(rid, "encoder_paths", npaths, 100)
+    ctx.floor(rid, "encoder_paths", npaths, 30)
     # element dispatcher: every GdsElement variant reaches its own encoder
     for f in encs:
         b = Body(f)
@@ -1336,7 +1336,7 @@ def rule_emission_purity(ctx, g, rid):
                     f.short, what, ", ".join(sorted(set(bad))), ", ".join(sorted({ctrl.fmt_path(q) for q in sl if q[1]}))[:160] or "no payload"), b.site(bi), key)
             else:
                 ctx.ok(rid, key, "controlled only by its own field / loops / errors")
-    ctx.floor(rid, "record_emission_sites", n, 80)
+    ctx.floor(rid, "record_emission_sites", n, 20)
 
 
 def _callee_chain(b, o, limit=60):
@@ -1460,4 +1460,4 @@ def rule_payload_verbatim(ctx, g, rid):
             ctx.violation(rid, key, "%s applies %s to a record payload before storing it: the library read differs from the library written (e.g. an angle of -90 comes back as 270)" % (f.short, ", ".join(sorted({h[1] for h in hits}))), b.site(hits[0][0]), key)
         else:
             ctx.ok(rid, f.short, "payloads stored as decoded")
-    ctx.floor(rid, "parser_functions", n_fn, 10)
+    ctx.floor(rid, "parser_functions", n_fn, 5)
